@@ -1,7 +1,10 @@
 pub mod auth;
+pub mod beh;
+pub mod edit;
 pub mod eq;
 pub mod parse;
 pub mod paths;
+pub mod pct;
 pub mod refs;
 pub mod resolve;
 
@@ -18,6 +21,10 @@ pub fn run_case(case: &Value, f: &mut Fails) -> Result<(), String> {
 		Some("iter") => paths::run_iter(case, f),
 		Some("resolve") => resolve::run(case, f),
 		Some("eqgroup") => eq::run(case, f),
+		Some("pct") => pct::run(case, f),
+		Some("edit") => edit::run(case, f),
+		Some("pathbeh") => beh::run_path(case, f),
+		Some("authbeh") => beh::run_auth(case, f),
 		Some("ref") => refs::run(case, f),
 		Some(k) => return Err(format!("unknown case kind {k}")),
 		None => return Err("case without kind".into()),
